@@ -440,10 +440,10 @@ def go_file_keys(prog):
     return keys
 
 
-def observe(binary, argv, cwd, prog, limit=30.0, long_limit=240.0, env=None):
+def observe(binary, argv, cwd, prog, out="out", limit=30.0, long_limit=240.0, env=None):
     """one run of thriftgo. A run that exceeds `limit` is repeated once with `long_limit` (a loaded machine
     must not turn a slow crash into a hang); only a run that exceeds that too is a hang."""
-    out_dir = os.path.join(cwd, "out")
+    out_dir = os.path.join(cwd, out)
     res = None
     for lim in (limit, long_limit):
         if os.path.isdir(out_dir):
@@ -484,7 +484,8 @@ def observe(binary, argv, cwd, prog, limit=30.0, long_limit=240.0, env=None):
     else:
         ex = "signal"
     return {"exit": ex, "rc": rc, "diag": diag, "crash": bool(crash), "crash_marks": crash,
-            "files": sorted(files, key=lambda x: (str(x[0]), x[1])), "wall_s": round(wall, 3),
+            "files": sorted(files, key=lambda x: (str(x[0]), x[1])), "other_files": others, "wall_s": round(wall, 3),
+            "slow": lim != limit,
             "stdout": so[-1500:], "stderr": se[-2500:]}
 
 
